@@ -134,14 +134,17 @@ def _prune(keep: Path) -> None:
         dirs = sorted(
             (d for d in root.iterdir() if d.is_dir()), key=lambda d: d.stat().st_mtime
         )
-    except FileNotFoundError:
+    except OSError:
         return
     import time
 
     for d in dirs[:-3]:
         # never remove a directory another run may still be building into
-        if d != keep and time.time() - d.stat().st_mtime > 6 * 3600:
-            shutil.rmtree(d, ignore_errors=True)
+        try:
+            if d != keep and time.time() - d.stat().st_mtime > 6 * 3600:
+                shutil.rmtree(d, ignore_errors=True)
+        except OSError:  # removed by a concurrent run
+            pass
 
 
 def build_parallel(names: list[str] | None = None) -> dict[str, Path]:
